@@ -102,3 +102,63 @@ extern void *igv_malloc(size_t);
 /* what the compiled code believes about the platform (op `plat`) */
 unsigned igv_block_sz(void) { return (unsigned)BLOCK_SZ; }
 int igv_char_is_signed(void) { return (char)0xff < 0; }
+
+/* ---- round 3: ctype through both spellings (the libc names of
+ * compat/libc/include/ctype.h, renamed to igv_* by the macros above, and the
+ * igris_* functions of igris/util/ctype.h they forward to), the isascii /
+ * toascii macros, and the platform constants the model embeds (op `plat2`) */
+int igv_ct_libc(int which, int c)
+{
+    switch (which)
+    {
+    case 0: return isalnum(c);
+    case 1: return isalpha(c);
+    case 2: return isblank(c);
+    case 3: return isdigit(c);
+    case 4: return islower(c);
+    case 5: return isprint(c);
+    case 6: return isspace(c);
+    case 7: return isupper(c);
+    case 8: return isxdigit(c);
+    case 9: return tolower(c);
+    case 10: return toupper(c);
+    case 11: return isascii(c);
+    case 12: return toascii(c);
+    }
+    return -12345;
+}
+int igv_ct_igris(int which, int c)
+{
+    switch (which)
+    {
+    case 0: return igris_isalnum(c);
+    case 1: return igris_isalpha(c);
+    case 2: return igris_isblank(c);
+    case 3: return igris_isdigit(c);
+    case 4: return igris_islower(c);
+    case 5: return igris_isprint(c);
+    case 6: return igris_isspace(c);
+    case 7: return igris_isupper(c);
+    case 8: return igris_isxdigit(c);
+    case 9: return igris_tolower(c);
+    case 10: return igris_toupper(c);
+    case 11: return isascii(c);
+    case 12: return toascii(c);
+    }
+    return -12345;
+}
+unsigned igv_plat2(int k)
+{
+    switch (k)
+    {
+    case 0: return (unsigned)sizeof(long);
+    case 1: return (unsigned)sizeof(size_t);
+    case 2: return (unsigned)sizeof(int);
+    case 3: return 'A';
+    case 4: return 'Z';
+    case 5: return 'a';
+    case 6: return 'z';
+    case 7: return 'a' - 'A';
+    }
+    return 0;
+}
